@@ -132,7 +132,7 @@ def check(pid, tier, seed, only, workers, verbose, write_evidence=True):
             if rec.get('cex'):
                 cexes.append(rec)
         st.update(obligations=nob, discharged=ndis, status_counts=by_status,
-                  witnesses=len(agg['witnesses']), witness_ok=sum(1 for w in agg['witnesses'] if w['ok']))
+                  witnesses=len(agg['witnesses']), witness_ok=sum(1 for w in agg['witnesses'] if w['ok'] is True))
         total['paths'] += agg['paths']
         total['obligations'] += nob
         total['discharged'] += ndis
@@ -160,14 +160,19 @@ def check(pid, tier, seed, only, workers, verbose, write_evidence=True):
         for w in agg['witnesses'][:1]:
             samples.append({'harness': h.name, 'witness_inputs': w['inputs'], 'witness_ok': w['ok'],
                             'decisions': w['decisions']})
-        bad_w = [w for w in agg['witnesses'] if not w['ok']]
+        bad_w = [w for w in agg['witnesses'] if w['ok'] is False]
+        st['witness_unavailable'] = sum(1 for w in agg['witnesses'] if w['ok'] is None)
         for w in bad_w[:3]:
             print('WITNESS-MISMATCH property=%s harness=%s failed=%s status=%s error=%s inputs=%s' % (
                 pid, h.name, w['failed'], w['status'], w['error'], json.dumps(w['inputs'])[:400]))
         st['witness_mismatch'] = len(bad_w)
         # vacuity: some path must reach a claim and have a concrete witness
         if h.witness and not cexes and nob > 0 and not any(w['ok'] for w in agg['witnesses']):
-            harness_errors.append('%s: no concrete witness reaches the claims (vacuity guard)' % h.name)
+            if any(w['ok'] is False for w in agg['witnesses']) or not agg['witnesses']:
+                harness_errors.append('%s: no concrete witness reaches the claims (vacuity guard)' % h.name)
+            else:
+                print('WITNESS-UNAVAILABLE property=%s harness=%s (the solver returned no model of a path condition; '
+                      'reachability of the claims is not confirmed by a concrete run)' % (pid, h.name))
         if nob == 0 and not cexes:
             harness_errors.append('%s: no path reached a claim (vacuity guard); statuses=%s' % (h.name, by_status))
         # counterexamples: replay (a few distinct ones per claim name)
